@@ -1010,6 +1010,22 @@ impl ContinuityStore {
             (head_seq, last_message)
         };
 
+        // A handoff must carry a resolvable summary: refuse an artifact id that names nothing.
+        if let Some(artifact_id) = summary_artifact_id.as_deref() {
+            let is_id = artifact_id.len() == 64 && artifact_id.bytes().all(|b| b.is_ascii_hexdigit());
+            let blob = self
+                .workspace_root
+                .join(".rip")
+                .join("artifacts")
+                .join("blobs")
+                .join(artifact_id);
+            if !is_id || !blob.is_file() {
+                return Err(format!(
+                    "handoff summary_artifact_id not found: {artifact_id}"
+                ));
+            }
+        }
+
         let workspace = workspace_key(&self.workspace_root);
         let thread_id = self.create_continuity(workspace, None, title, false)?;
 
